@@ -53,6 +53,12 @@ import (
 
 const groupDNSFault = 9_000_000
 
+// cnameTarget: in one delivery of four the MX host is a DNSSEC-secure CNAME to
+// this name; address and TLSA records are published there (RFC 7672 2.2.2: the
+// TLSA base domain of such an MX is the CNAME target), the original name has no
+// TLSA name, and a TLSA fault hits the query for the target's records only.
+const cnameTarget = "mx.cname-target.invalid."
+
 // rcodeNoData: NOERROR with an empty answer section.
 const rcodeNoData = -1
 
@@ -64,6 +70,7 @@ type dnsFault struct {
 	keepAnswer bool   // failure RCODE but the records are in the answer section all the same
 	noOPT      bool   // the OPT record of the query is not echoed
 	first      int    // only the first n queries of that type (0: all of them)
+	owner      string // only queries for this owner name (lower case, fully qualified; "": any)
 }
 
 // class is signature / counter material: no numbers that vary within a class.
@@ -98,6 +105,9 @@ func (f *dnsFault) deniesRecords() bool {
 func (s *bigDNS) serveFault(w miekgdns.ResponseWriter, m *miekgdns.Msg, zoneReply *miekgdns.Msg) bool {
 	ft := s.beh.fault
 	if ft == nil || m.Question[0].Qtype != ft.qtype {
+		return false
+	}
+	if ft.owner != "" && strings.ToLower(miekgdns.Fqdn(m.Question[0].Name)) != ft.owner {
 		return false
 	}
 	s.facts.faultMatched++
@@ -272,9 +282,28 @@ func dnsFaultGroup(t *testing.T, r *rep.Reporter, pki *xPKI) {
 						}
 						intent, ks, noName := drawFaultSet(p, hasInter, force)
 						ft := drawFault(p, class)
+						// own stream: the draws above are those of the group without the CNAME dimension
+						cname := prng.New(r.Seed(), uint64(idx)*1000+uint64(n), "c13-dnsfault-cname").Chance(1, 4)
+						if cname && ft != nil && ft.qtype == miekgdns.TypeTLSA {
+							ft.owner = "_25._tcp." + cnameTarget
+						}
 						env.big.configure(dnsBehaviour{maxUDP: 4096, style: "empty", fault: ft}, func() {
 							env.publish(h, ks, noName)
+							tn, ctn := tlsaName(h.spec.host), "_25._tcp."+cnameTarget
+							delete(env.zones, ctn)
+							delete(env.zones, cnameTarget)
 							env.zones[h.spec.host+"."] = mockdns.Zone{AD: true, A: []string{"127.0.0.1"}}
+							if cname {
+								if tz, ok := env.zones[tn]; ok {
+									for _, rr := range tz.Misc[miekgdns.Type(miekgdns.TypeTLSA)] {
+										rr.Header().Name = ctn
+									}
+									env.zones[ctn] = tz
+									delete(env.zones, tn)
+								}
+								env.zones[h.spec.host+"."] = mockdns.Zone{AD: true, CNAME: cnameTarget}
+								env.zones[cnameTarget] = mockdns.Zone{AD: true, A: []string{"127.0.0.1"}}
+							}
 						})
 						// what the scenario has in the zone file, by the statement
 						zoneV, _, _ := env.hopVerdict(h)
@@ -300,6 +329,19 @@ func dnsFaultGroup(t *testing.T, r *rep.Reporter, pki *xPKI) {
 							qt = "a"
 						}
 						served := ft != nil && f.faultServed > 0
+						mxTag := "mx-host-has-address"
+						if cname {
+							mxTag = "mx-host-is-secure-cname"
+							r.Count("e2ek_mx_host_is_secure_cname", 1)
+							if ft == nil && delta[0].conns > 0 {
+								switch {
+								case v == vRefused:
+									r.Count("e2ek_cname_no_fault_statement_refuses", 1)
+								case delta[0].contents > 0:
+									r.Count("e2ek_cname_no_fault_delivered", 1)
+								}
+							}
+						}
 						r.Count("e2ek_published/"+intent, 1)
 						switch {
 						case ft == nil:
@@ -341,6 +383,9 @@ func dnsFaultGroup(t *testing.T, r *rep.Reporter, pki *xPKI) {
 								if ft.first == 0 && qt == "tlsa" {
 									r.Count("e2ek_tlsa_lookup_failed_everywhere_statement_refuses/"+tlsTag, 1)
 								}
+								if ft.owner != "" {
+									r.Count("e2ek_cname_target_tlsa_lookup_failed_statement_refuses/"+tlsTag, 1)
+								}
 							case v == vAllowed && ref.auth:
 								r.Count("e2ek_lookup_failed_statement_allows/matching-record", 1)
 							case v == vAllowed:
@@ -349,13 +394,13 @@ func dnsFaultGroup(t *testing.T, r *rep.Reporter, pki *xPKI) {
 						}
 						cause := func(*hop) string {
 							if ft == nil {
-								return "lookups-answered-from-zone"
+								return "lookups-answered-from-zone/" + mxTag
 							}
 							where := "every-server"
 							if ft.first > 0 {
 								where = "first-servers-only"
 							}
-							return "lookup-fault=" + qt + ":" + class + "/" + where
+							return "lookup-fault=" + qt + ":" + class + "/" + where + "/" + mxTag
 						}
 						env.converseCause = func(h *hop) string {
 							if len(h.ks) == 0 || h.noName {
@@ -376,7 +421,7 @@ func dnsFaultGroup(t *testing.T, r *rep.Reporter, pki *xPKI) {
 								"opt_echoed": !ft.noOPT, "only_first_n_queries": ft.first, "fault_answers_sent": f.faultServed, "tlsa_queries_answered_from_zone": f.tlsaFromZone}
 						}
 						env.judgeDelivery(c, r, "e2e-dnsfault", "e2ek", cause, outcome, delta, map[string]any{
-							"zone_file": map[string]any{"intent": intent, "records": kindsLabel(ks, noName)},
+							"zone_file": map[string]any{"intent": intent, "records": kindsLabel(ks, noName), "mx_host_is_secure_cname_records_at_target": cname},
 							"dns_fault": fw,
 						})
 						if round == 0 && k == 0 {
